@@ -344,6 +344,56 @@ def v2_cap_family(rng, n_per_base=60):
     return out
 
 
+_TABLE_ORDERS = {}
+
+
+def table_orders(ver):
+    """orders of the metric abbreviations that exist somewhere in the library's own constants module (lists / dict keys that
+    enumerate metrics): the orders in which an implementation might believe a vector to be 'already in order'"""
+    if ver in _TABLE_ORDERS:
+        return _TABLE_ORDERS[ver]
+    V = VOCAB[ver]
+    want = set(V["order"])
+    found = []
+    try:
+        import importlib
+        c = importlib.import_module("cvss.constants" + ver)
+        for name in sorted(vars(c)):
+            obj = getattr(c, name)
+            ks = list(obj.keys()) if isinstance(obj, dict) else (list(obj) if isinstance(obj, (list, tuple)) else None)
+            if ks and all(isinstance(k, str) for k in ks) and len(set(ks) & want) >= len(V["mandatory"]) and set(ks) <= want | set(ks):
+                order = [k for k in ks if k in want]
+                if len(order) == len(set(order)) and order not in found:
+                    found.append(order)
+    except Exception:  # noqa
+        pass
+    _TABLE_ORDERS[ver] = found
+    return found
+
+
+def order_variants(ver, a, rng):
+    """the assignment rendered in SYSTEMATIC field orders: the official order, each order found in the library's tables,
+    alphabetical, reversed, base metrics in place with the optional groups rotated"""
+    V = VOCAB[ver]
+    present = [k for k in V["order"] if k in a]
+    orders = [present, sorted(present), list(reversed(present))]
+    for t in table_orders(ver):
+        orders.append([k for k in t if k in a] + [k for k in present if k not in t])
+    base = [k for k in present if k in V["mandatory"]]
+    opt = [k for k in present if k not in V["mandatory"]]
+    if len(opt) > 1:
+        r = rng.randrange(1, len(opt))
+        orders.append(base + opt[r:] + opt[:r])
+        orders.append(opt + base)
+    out = []
+    pfx = rng.choice(PREFIX[ver])
+    for o in orders:
+        s = render(ver, a, prefix=pfx, order=o)
+        if s not in out:
+            out.append(s)
+    return out
+
+
 _TIES = None
 
 
